@@ -39,6 +39,7 @@ func GenPlan(family string, seed uint64) *Plan {
 	}
 	bareConfig(p, seed)
 	sameIDConfig(p, seed)
+	bigPrioConfig(p, seed)
 	if r := NewRng(seed, "inlock/"+family); !p.Sched.Free && len(p.Insts) > 0 && p.Sched.InLock == 0 && p.Sched.YieldProb > 0 {
 		switch family {
 		case "faultfree", "mixed", "c08", "c05ack", "c07rounds", "c13", "ctxcancel", "stoprestart":
@@ -62,6 +63,37 @@ func GenPlan(family string, seed uint64) *Plan {
 		p.Store.Dialect = "mock"
 	}
 	return p
+}
+
+// bigPrioConfig: in one plan out of ten of the families whose records are written by the
+// elections only, every non-zero priority is moved up by 2^53. The order of the priorities is what
+// it was; a comparison that goes through a float64 (or a 32-bit integer) on the way no longer
+// sees that order. Drawn from a stream of its own.
+func bigPrioConfig(p *Plan, seed uint64) {
+	switch p.Family {
+	case "mixed", "c10", "faultfree", "c10fault":
+	default:
+		return
+	}
+	for _, a := range p.Actions {
+		if a.Kind == AOutPut {
+			return
+		}
+	}
+	r := NewRng(seed, "bigprio/"+p.Family)
+	if !r.Bool(1.0 / 10) {
+		return
+	}
+	any := false
+	for i := range p.Insts {
+		if p.Insts[i].Prio > 0 {
+			p.Insts[i].Prio += 1 << 53
+			any = true
+		}
+	}
+	if any {
+		p.Note += " big-prio"
+	}
 }
 
 // sameIDConfig: in one plan out of eight of some families two instances of a group share one
